@@ -2,6 +2,6 @@ SPECIFICATION Spec
 CONSTANTS
   CheckResults = TRUE
   CheckRegs = TRUE
-INVARIANTS NoHarnessErrors SameResults SameRegisters
+INVARIANTS NoHarnessErrors SameResults SameRegisters ColdEqualsWarm
 POSTCONDITION TraceAccepted
 CHECK_DEADLOCK FALSE
